@@ -195,8 +195,8 @@ theorem mutEntry_aligned (fuel k : Nat) (cands : List GSpec) (dist srt : Bool) (
           exact tail nv nd (randomDna_aligned _ _ _ _ _ h3)
 
 mutual
-  theorem mutNode_aligned (fuel : Nat) : ∀ (d : DNA) (g : GSpec) (coll : Bool) (i : Nat) (s : St) (d' : DNA) (s' : St),
-      valid g d = true → aligned d = true → mutNode fuel g coll d i s = .ok (d', s') → aligned d' = true
+  theorem mutNode_aligned (w : Where) (fuel : Nat) : ∀ (d : DNA) (g : GSpec) (coll : Bool) (i : Nat) (s : St) (d' : DNA) (s' : St),
+      valid g d = true → aligned d = true → mutNode w fuel g coll d i s = .ok (d', s') → aligned d' = true
     | .space ds, g, coll, i, s, d', s', hv, ha, h => by
         cases g with
         | space es =>
@@ -207,7 +207,7 @@ mutual
           obtain ⟨rfl, rfl⟩ := h2
           simp only [valid] at hv
           simp only [aligned] at ha ⊢
-          exact mutElems_aligned fuel ds es _ i s ds' s1 hv ha h1
+          exact mutElems_aligned w fuel ds es _ i s ds' s1 hv ha h1
         | choices k cands dist srt => simp [valid] at hv
         | float lo hi => simp [valid] at hv
     | .choices subs, g, coll, i, s, d', s', hv, ha, h => by
@@ -224,7 +224,7 @@ mutual
             obtain ⟨_, hall, _, _⟩ := (valid_choices_iff _ _ _ _ _).mp hv
             have hvs : validSubs cands subs = true := by
               rw [validSubs_eq_all, List.all_eq_true]; exact hall
-            have hr := mutSubs_aligned fuel subs cands _ 0 s r s1 hvs ha h1
+            have hr := mutSubs_aligned w fuel k subs cands _ 0 s r s1 hvs ha h1
             cases r with
             | inl l =>
               simp only [] at h2 hr
@@ -243,9 +243,9 @@ mutual
           exact randomDna_aligned _ _ _ _ _ h
     | .sub b v d, g, coll, i, s, d', s', hv, ha, h => by
         cases g <;> simp [valid] at hv
-  theorem mutElems_aligned (fuel : Nat) : ∀ (ds : List DNA) (es : List GSpec) (c : Bool) (i : Nat) (s : St)
+  theorem mutElems_aligned (w : Where) (fuel : Nat) : ∀ (ds : List DNA) (es : List GSpec) (c : Bool) (i : Nat) (s : St)
       (ds' : List DNA) (s' : St),
-      validElems es ds = true → alignedAll ds = true → mutElems fuel es c ds i s = .ok (ds', s') →
+      validElems es ds = true → alignedAll ds = true → mutElems w fuel es c ds i s = .ok (ds', s') →
       alignedAll ds' = true
     | [], es, c, i, s, ds', s', hv, ha, h => by
         cases es <;> (simp only [mutElems] at h; exact ((fail_ok _ _ _).mp h).elim)
@@ -262,17 +262,17 @@ mutual
             rw [pure_ok] at h2
             obtain ⟨rfl, rfl⟩ := h2
             simp only [alignedAll, Bool.and_eq_true]
-            exact ⟨mutNode_aligned fuel d e c i s d1 s1 hv.1 ha.1 h1, ha.2⟩
+            exact ⟨mutNode_aligned w fuel d e c i s d1 s1 hv.1 ha.1 h1, ha.2⟩
           · rw [bind_ok] at h
             obtain ⟨ds1, s1, h1, h2⟩ := h
             rw [pure_ok] at h2
             obtain ⟨rfl, rfl⟩ := h2
             simp only [alignedAll, Bool.and_eq_true]
-            exact ⟨ha.1, mutElems_aligned fuel ds es c _ s ds1 s1 hv.2 ha.2 h1⟩
-  theorem mutSubs_aligned (fuel : Nat) : ∀ (subs : List DNA) (cands : List GSpec) (i k : Nat) (s : St)
+            exact ⟨ha.1, mutElems_aligned w fuel ds es c _ s ds1 s1 hv.2 ha.2 h1⟩
+  theorem mutSubs_aligned (w : Where) (fuel kk : Nat) : ∀ (subs : List DNA) (cands : List GSpec) (i k : Nat) (s : St)
       (r : List DNA ⊕ Nat) (s' : St),
       validSubs cands subs = true → alignedFrom k subs = true →
-      mutSubs fuel cands subs i s = .ok (r, s') →
+      mutSubs w fuel kk cands subs i s = .ok (r, s') →
       (match r with
        | .inl l => alignedFrom k l = true
        | .inr _ => True)
@@ -294,17 +294,18 @@ mutual
           | some c =>
             rw [hc] at h hv
             simp only [] at h hv
+            generalize (if w (entryInfo kk b v) = true then i - 1 else i) = i1 at h
             split at h
             · rw [bind_ok] at h
               obtain ⟨d1, s1, h1, h2⟩ := h
               rw [pure_ok] at h2
               obtain ⟨rfl, rfl⟩ := h2
-              have := mutNode_aligned fuel d c true _ s d1 s1 hv.1 ha.1.2 h1
+              have := mutNode_aligned w fuel d c true _ s d1 s1 hv.1 ha.1.2 h1
               simp only [alignedFrom, Bool.and_eq_true, decide_eq_true_eq]
               exact ⟨⟨ha.1.1, this⟩, ha.2⟩
             · rw [bind_ok] at h
               obtain ⟨r1, s1, h1, h2⟩ := h
-              have hr := mutSubs_aligned fuel rest cands _ (k + 1) s r1 s1 hv.2 ha.2 h1
+              have hr := mutSubs_aligned w fuel kk rest cands _ (k + 1) s r1 s1 hv.2 ha.2 h1
               cases r1 with
               | inl l =>
                 simp only [] at h2 hr
@@ -319,28 +320,34 @@ mutual
                 trivial
 end
 
-theorem mutUniformOne_aligned (fuel : Nat) (g : GSpec) (d : DNA) (s : St) (d' : DNA) (s' : St)
-    (hv : valid g d = true) (ha : aligned d = true) (h : mutUniformOne fuel g d s = .ok (d', s')) :
+theorem mutUniformOne_aligned (w : Where) (fuel : Nat) (g : GSpec) (d : DNA) (s : St) (d' : DNA) (s' : St)
+    (hv : valid g d = true) (ha : aligned d = true) (h : mutUniformOne w fuel g d s = .ok (d', s')) :
     aligned d' = true := by
   simp only [mutUniformOne] at h
   split at h
   · exact ((fail_ok _ _ _).mp h).elim
   · rw [bind_ok] at h
     obtain ⟨i, s1, _, h2⟩ := h
-    exact mutNode_aligned fuel d g false i s1 d' s' hv ha h2
+    exact mutNode_aligned w fuel d g false i s1 d' s' hv ha h2
+
+theorem mutUniformW_aligned (w : Where) (fuel : Nat) (g : GSpec) (pop : Pop) (st : St) (out : Pop) (st' : St)
+    (hp : ∀ x ∈ pop, valid g x.dna = true ∧ aligned x.dna = true)
+    (h : mutUniformW w fuel g pop st = .ok (out, st')) :
+    ∀ y ∈ out, valid g y.dna = true ∧ aligned y.dna = true := by
+  simp only [mutUniformW] at h
+  obtain ⟨_, hall⟩ := mapChild_spec (mutUniformOne w fuel g)
+    (fun _ d' => valid g d' = true ∧ aligned d' = true) pop
+    (fun x hx s d' s' hd => by
+      obtain ⟨hv, hu⟩ := mutUniformOne_spec w fuel g x.dna s d' s' (hp x hx).1 hd
+      exact ⟨⟨hv, mutUniformOne_aligned w fuel g x.dna s d' s' (hp x hx).1 (hp x hx).2 hd⟩, hu⟩) st out st' h
+  intro y hy
+  obtain ⟨x, _, hr⟩ := all2_out hall y hy
+  exact hr.1
 
 theorem mutUniform_aligned (fuel : Nat) (g : GSpec) (pop : Pop) (st : St) (out : Pop) (st' : St)
     (hp : ∀ x ∈ pop, valid g x.dna = true ∧ aligned x.dna = true)
     (h : mutUniform fuel g pop st = .ok (out, st')) :
-    ∀ y ∈ out, valid g y.dna = true ∧ aligned y.dna = true := by
-  simp only [mutUniform] at h
-  obtain ⟨_, hall⟩ := mapChild_spec (mutUniformOne fuel g)
-    (fun _ d' => valid g d' = true ∧ aligned d' = true) pop
-    (fun x hx s d' s' hd => by
-      obtain ⟨hv, hu⟩ := mutUniformOne_spec fuel g x.dna s d' s' (hp x hx).1 hd
-      exact ⟨⟨hv, mutUniformOne_aligned fuel g x.dna s d' s' (hp x hx).1 (hp x hx).2 hd⟩, hu⟩) st out st' h
-  intro y hy
-  obtain ⟨x, _, hr⟩ := all2_out hall y hy
-  exact hr.1
+    ∀ y ∈ out, valid g y.dna = true ∧ aligned y.dna = true :=
+  mutUniformW_aligned _ fuel g pop st out st' hp h
 
 end Pg.C14
